@@ -1,2 +1,67 @@
-(* PropsC19.v — C19: repeated flags accumulate like sequential merges. *)
-From Ucfg Require Import Base ParseInt Consts Field Tree PathOps Merge F64 ParseValue VarParse Normalize Ops Flags.
+(* PropsC19.v — C19: repeated flags accumulate like sequential merges with the flag's options.
+   Statements only; proofs are in ProofsFlags.v. *)
+From Ucfg Require Import Base ParseInt Consts Field Tree PathOps Merge F64 ParseValue VarParse Normalize Ops Flags ProofsFlags.
+
+(* The collector after a sequence of Set calls is the left fold of single steps ... *)
+Theorem c19_fold : forall o co ab st a args,
+  run_flags o co ab st (a :: args) = run_flags o co ab (snd (flag_set o co ab st a)) args.
+Proof. exact run_flags_cons. Qed.
+Print Assumptions c19_fold.
+
+(* ... where a step that succeeds merges the setting, created with the flag's options [o],
+   into the collected config with the collector's options [co] (the flag passes its own) *)
+Theorem c19_step_is_merge : forall o co ab st arg c m,
+  no_err (f_err st) = true ->
+  load_arg o ab arg = Some (Ok c) ->
+  merge_full co (Some (f_cfg st)) c = Ok m ->
+  flag_set o co ab st arg = (OV VNil, {| f_cfg := m; f_err := OV VNil |}).
+Proof. exact flag_set_merges. Qed.
+Print Assumptions c19_step_is_merge.
+
+(* the setting of "key=value" is {key: parse.Value(value)} normalized with the flag's options;
+   the key is everything before the FIRST '=' *)
+Theorem c19_key_value : forall o ab key v,
+  index_byte key "="%char = None -> v <> "" ->
+  load_arg o ab (key +++ String "="%char v) =
+  match parse_value_with_config DefaultConfig v with
+  | POk x => Some (normalize o (GMap true [(KStr key, pv_to_gval x)]))
+  | PErr _ => Some (Err EOther "!raw")
+  | PPanic => Some Panic
+  | PUnknown => Some OutOfModel
+  end.
+Proof. exact key_value_split. Qed.
+Print Assumptions c19_key_value.
+
+(* a key with an empty value is ignored *)
+Theorem c19_empty_value_ignored : forall o co ab st key,
+  index_byte key "="%char = None -> flag_set o co ab st (key +++ "=") = (OV VNil, st).
+Proof. exact empty_value_ignored. Qed.
+Print Assumptions c19_empty_value_ignored.
+
+(* a bare key means true *)
+Theorem c19_bare_key_true : forall o key,
+  index_byte key "="%char = None ->
+  load_arg o true key = Some (normalize o (GMap true [(KStr key, GBool true)])).
+Proof. exact bare_key_is_true. Qed.
+Print Assumptions c19_bare_key_true.
+
+(* the first failing argument is recorded ... *)
+Theorem c19_first_error_recorded : forall o co ab st arg e p,
+  no_err (f_err st) = true -> load_arg o ab arg = Some (Err e p) ->
+  flag_set o co ab st arg = (OE e p, {| f_cfg := f_cfg st; f_err := OE e p |}).
+Proof. exact flag_set_records_first_error. Qed.
+Print Assumptions c19_first_error_recorded.
+
+(* ... and after it the collector keeps reporting that error: no sequence of further
+   arguments changes the error or the config *)
+Theorem c19_error_sticky : forall o co ab args st,
+  no_err (f_err st) = false -> run_flags o co ab st args = st.
+Proof. exact run_flags_sticky. Qed.
+Print Assumptions c19_error_sticky.
+
+Example c19_ex_append :   (* AppendValues: a=[1,2] then a=[3] gives [1,2,3] *)
+  let o := {| n_p := {| p_sep := "."; p_maxIdx := 1024; p_numKeys := false; p_escape := false |};
+              n_varexp := false; n_m := plain_opts hAppend |} in
+  f_cfg (run_flags o (n_m o) true {| f_cfg := empty_cfg; f_err := OV VNil |} ["a=[1,2]"; "a=[3]"])
+  = VSub [("a", ("a", VSub [] (Some [("0", VUint 1); ("1", VUint 2); ("2", VUint 3)])))] None.
+Proof. vm_compute. reflexivity. Qed.
